@@ -37,6 +37,7 @@ func c09(r *Report) propMeta {
 	r.NoWriteThrough("choose-some-copies-weights", "pkg/bandrng.ChooseSome", "param:weights")
 	r.NoWriteThrough("choose-one-read-only", "pkg/bandrng.ChooseOne", "param:weights")
 	r.NoWriteThrough("max-weight-read-only", "pkg/bandrng.ChooseSomeMaxWeight", "param:weights")
+	r.NoSignChange("weights-stay-unsigned-64-bit", []string{"pkg/bandrng.ChooseSomeMaxWeight", "pkg/bandrng.ChooseOne", "pkg/bandrng.ChooseSome"}, map[string]string{})
 	r.SameValue("every-try-sees-the-same-weights", "pkg/bandrng.ChooseSomeMaxWeight", ArgRef{"bandrng.ChooseSome", 1})
 	r.ArgHas("every-try-sees-the-same-weights", "pkg/bandrng.ChooseSomeMaxWeight", "bandrng.ChooseSome", 1, 1, "^param:weights")
 	r.ArgHas("every-try-same-count", "pkg/bandrng.ChooseSomeMaxWeight", "bandrng.ChooseSome", 2, 1, "^param:cnt")
